@@ -13,6 +13,9 @@ pub mod c11;
 pub mod c12;
 pub mod c13;
 pub mod c14;
+pub mod c15;
+pub mod c16;
+pub mod c17;
 pub mod conf;
 pub mod reexport;
 pub mod c06;
@@ -43,5 +46,5 @@ pub struct PropDef {
 }
 
 pub fn all() -> Vec<PropDef> {
-    vec![c01::DEF, c02::DEF, c03::DEF, c04::DEF, c05::DEF, c06::DEF, c07::DEF, c08::DEF, reexport::C09, reexport::C10, c11::DEF, c12::DEF, c13::DEF, c14::DEF]
+    vec![c01::DEF, c02::DEF, c03::DEF, c04::DEF, c05::DEF, c06::DEF, c07::DEF, c08::DEF, reexport::C09, reexport::C10, c11::DEF, c12::DEF, c13::DEF, c14::DEF, c15::DEF, c16::DEF, c17::DEF]
 }
